@@ -879,6 +879,25 @@ func enumStateDiff(c *collector, s *subject, b *chain.Blk) {
 			m[incV(a)] = v
 		})
 	}
+	// a contract this block touches otherwise (nonce, class, deployment) listed in the storage
+	// section with NO entries: the commitment counts and names the contracts of that section
+	if d.StorageDiffs != nil {
+		n := 0
+		var cands []felt.Felt
+		cands = append(cands, sortedKeys(d.Nonces)...)
+		cands = append(cands, sortedKeys(d.ReplacedClasses)...)
+		cands = append(cands, sortedKeys(d.DeployedContracts)...)
+		for _, a := range cands {
+			a := a
+			if _, has := d.StorageDiffs[a]; has || n >= 2 {
+				continue
+			}
+			n++
+			c.add("state_diff/storage/add-contract-without-entries", a.String(), func(b *chain.Blk) {
+				b.SU.StateDiff.StorageDiffs[a] = map[felt.Felt]*felt.Felt{}
+			})
+		}
+	}
 	if d.StorageDiffs != nil {
 		c.add("state_diff/storage/add-contract", freshAddr.String(), func(b *chain.Blk) {
 			b.SU.StateDiff.StorageDiffs[freshAddr] = map[felt.Felt]*felt.Felt{freshKey: felt.NewFromUint64[felt.Felt](5)}
